@@ -259,6 +259,46 @@ def run_shard(spec, res):
                             '%s %s (%s) as %s' % (op[0], op[1], tname,
                                                   caller[0]),
                             resp, d0, after, stmts, wit)
+            # a repeated query parameter: the project the policy is judged
+            # for and the project whose usages are returned are one and the
+            # same (whichever of the two values the service takes)
+            for order in (('own', OWN, 'proj-other'),
+                          ('foreign', 'proj-other', OWN)):
+                for caller in CALLERS:
+                    if caller[0] not in ('reader-own', 'member-own'):
+                        continue
+                    req = Req('GET', '/usages?project_id=%s&project_id=%s'
+                              % (order[1], order[2]), '1.39')
+                    r, resp, after, stmts = probe(req, caller)
+                    res.count('requests')
+                    res.count('repeated_parameter_probes')
+                    res.seen('GET /usages', caller[0],
+                             'repeated-project_id-%s-first' % order[0])
+                    wit = {'request': r.brief(), 'response': resp.brief(),
+                           'caller': caller[0]}
+                    mine, other = OWN, 'proj-other'
+                    if 200 <= resp.status < 300:
+                        # answered: then for the caller's own project, i.e.
+                        # what a single project_id=<own> returns
+                        ref = probe(Req('GET', '/usages?project_id=%s'
+                                        % mine, '1.39'), caller)[1]
+                        oth = probe(Req('GET', '/usages?project_id=%s'
+                                        % other, '1.39'), CALLERS[5])[1]
+                        if resp.json != ref.json or (
+                                resp.json == oth.json and
+                                ref.json != oth.json):
+                            res.violation(
+                                'C16|foreign-data-through-repeated-'
+                                'parameter|GET /usages|%s' % caller[0],
+                                'GET /usages with project_id=%s&project_id='
+                                '%s as %s answered %d with %r' % (
+                                    order[1], order[2], caller[0],
+                                    resp.status, resp.json), wit)
+                    elif resp.status not in (400, 403):
+                        res.violation(
+                            'C16|denied-caller-unexpected-status|GET /usages'
+                            '|%s|repeated|%d' % (caller[0], resp.status),
+                            'answered %d' % resp.status, wit)
             # the same operations in the request formats of older
             # microversions (handlers are implemented per version band:
             # every band must authorise on its own)
